@@ -4,6 +4,7 @@ Runs the crashing server and the uninterrupted server side by side on the symbol
 (`histDyn`: a step result is the list of (time, settings) applied to the simulation so far).
 
   new                                  both servers empty
+  cfg <0|1> <0|1>                      mechanism facts for what follows: replayIsComplete, atomicWrite (default 1 0)
   start <id> <start> <dt> <stop> <tag>
   step <id> <settings>                 -> C=<resp>;U=<resp>
   crash
@@ -25,14 +26,17 @@ def fmtResp : Resp H → String
 
 def mkSettings (s : String) : Settings := if s == "-" then [] else [(0, s)]
 
-def stepLine (st : Server H × UServer H) (line : String) : (Server H × UServer H) × String :=
-  let (c, u) := st
-  let both (op : Op) : (Server H × UServer H) × String :=
-    let rc := stepC histDyn c op
-    let ru := stepU histDyn u op
-    ((rc.1, ru.1), s!"C={fmtResp rc.2};U={fmtResp ru.2}")
+abbrev St := Cfg × Server H × UServer H
+
+def stepLine (st : St) (line : String) : St × String :=
+  let (cf, c, u) := st
+  let both (op : Op) : St × String :=
+    let rc := stepCC cf histDyn c op
+    let ru := stepU histDyn u (atomize cf.atomicWrite op)
+    ((cf, rc.1, ru.1), s!"C={fmtResp rc.2};U={fmtResp ru.2}")
   match line.trimAscii.toString.splitOn " " with
-  | ["new"] => ((Server.empty, UServer.empty), "ok")
+  | ["new"] => ((cf, Server.empty, UServer.empty), "ok")
+  | ["cfg", r, a] => (({ replayIsComplete := r == "1", atomicWrite := a == "1" }, c, u), "ok")
   | ["start", id, a, d, z, tag] =>
     match id.toNat?, a.toInt?, d.toInt?, z.toInt?, tag.toNat? with
     | some id, some a, some d, some z, some tag =>
@@ -56,11 +60,11 @@ def stepLine (st : Server H × UServer H) (line : String) : (Server H × UServer
     | none => (st, "bad-op")
   | _ => (st, "bad-op")
 
-partial def loop (h : IO.FS.Stream) (st : Server H × UServer H) : IO Unit := do
+partial def loop (h : IO.FS.Stream) (st : St) : IO Unit := do
   let line ← h.getLine
   if line.isEmpty then return ()
   let (st', out) := stepLine st line
   IO.println out
   loop h st'
 
-def main : IO Unit := do loop (← IO.getStdin) (Server.empty, UServer.empty)
+def main : IO Unit := do loop (← IO.getStdin) ({ replayIsComplete := true, atomicWrite := false }, Server.empty, UServer.empty)
